@@ -1,7 +1,7 @@
 (* Model.GeomRun: case type and executable checkers for Run/cases_C18.v (no proofs).
    model_ok  : the implementation's output equals the model's on the same input;
    spec_class: the property itself, decided on the implementation's output alone. *)
-From DV Require Import Base.Prelude Base.Int Base.WrapZ Gen.Consts Model.Geometry Model.RLE Model.ROI Model.RLE2 Model.IZYX.
+From DV Require Import Base.Prelude Base.Int Base.WrapZ Gen.Consts Model.Geometry Model.RLE Model.ROI Model.RLE2 Model.IZYX Model.ROIPart.
 Local Open Scope Z_scope.
 
 Definition zb (b : bytes) : list Z := map Z.of_N b.
@@ -118,7 +118,10 @@ Inductive c18case :=
 | KIzyx (op : nat) (a b out : list pt)
 | KIFit (l : list pt) (b : option obounds) (out : list pt)
 | KIDown (l : list pt) (scale : Z) (out : list pt)
-| KIBounds (l : list pt) (mn mx : pt).
+| KIBounds (l : list pt) (mn mx : pt)
+(* GET <roi>/partition?batchsize=bsz (SimplePartition) of an instance holding [spans] (as GET roi
+   returned them): the reported subvolumes, NumSubvolumes, NumActiveBlocks *)
+| KRoiPart (bsz : Z) (spans : list span) (vs : list subvol) (nsub nactive : Z).
 
 Definition pts_eqb (a b : list pt) : bool := list_eqb pt_eqb a b.
 Definition memb (p : pt) (l : list pt) : bool := existsb (pt_eqb p) l.
@@ -214,6 +217,7 @@ Definition model_ok (c : c18case) : bool :=
   | KIBounds l mn mx =>
     (pt_eqb (fst (get_bounds l)) mn && pt_eqb (snd (get_bounds l)) mx)
     || (pt_eqb (fst (get_bounds_fixed l)) mn && pt_eqb (snd (get_bounds_fixed l)) mx)
+  | KRoiPart _ _ _ _ _ => true
   end.
 
 (* the number of voxels Add really adds: counted voxel by voxel *)
@@ -373,6 +377,15 @@ Definition spec_class (c : c18case) : nat :=
     else 0%nat
   | KIBounds l mn mx =>
     if forallb (coords_from (-2147483646)) l then cls (bbox_ok l mn mx) 27%nat else 0%nat
+  | KRoiPart bsz spans vs nsub nactive =>
+    if forallb span_okb spans && spans_sortedb spans && spans_disjointb spans && (1 <=? bsz) then
+      if boxes_disjointb vs && tiles_ok spans vs && counts_ok spans vs
+         && forallb (fun v => (px (vmax v) - px (vmin v) + 1 =? bsz) && (py (vmax v) - py (vmin v) + 1 =? bsz)
+                              && (pz (vmax v) - pz (vmin v) + 1 =? bsz)) vs
+         && (nsub =? Z.of_nat (length vs)) && (nactive =? Z.of_nat (length (roi_blocks spans)))
+      then 0%nat
+      else if has_z_gap bsz spans then 29%nat else 28%nat
+    else 0%nat
   end.
 
 Fixpoint classify_from (i : nat) (l : list c18case) : list (nat * nat) :=
@@ -387,6 +400,8 @@ Definition c18_model_mismatch (l : list c18case) : list nat := find_idx (fun c =
 (* compact constructors for the generated cases file *)
 Definition rl (l : list (Z * Z * Z * Z)) : list rle :=
   map (fun q => match q with (x, y, z, n) => R x y z n end) l.
+Definition svl (l : list (pt * pt * Z * Z)) : list subvol :=
+  map (fun q => match q with (mn, mx, t, a) => SV mn mx t a end) l.
 Definition spl (l : list (Z * Z * Z * Z)) : list span :=
   map (fun q => match q with (z, y, x0, x1) => SP z y x0 x1 end) l.
 (* a string of '0'/'1' characters as a list of booleans *)
